@@ -191,6 +191,12 @@ var vc05Faults = []string{
 	"{% type P struct{ A int; b string } %}{% type Q P %}{% x := Q{a, s} %}{{ x.A }}{{ x.b }}",
 	"{% type P []U %}{% x := P{{A: a}, {A: b}} %}{{ x[1].A }}",
 	"{% var x U %}{% y := &x %}{% y.A = a %}{{ x.A }}",
+	// compound assignment and ++ on elements (OpIndex), with a bad index
+	"{% sl[a] += 2 %}{% if sl[0] == 1 %}T{% end %}",
+	"{% sl[a]++ %}",
+	"{% ss := []string{\"x\"} %}{% ss[a] += s %}",
+	"{% arr := [3]int8{1, 2, 3} %}{% arr[a] *= 2 %}{% arr[b]-- %}",
+	"{% m := map[string][]int16{\"k\": sl} %}{% m[\"k\"][a] -= 1 %}",
 	// a map key of interface type holding an unhashable value, in every map operation
 	"{% m := map[interface{}]int{} %}{% var k interface{} = a %}{% if b > 0 %}{% k = sl %}{% end %}{% x := m[k] %}{% if x == a %}T{% end %}",
 	"{% m := map[interface{}]int{} %}{% var k interface{} = a %}{% if b > 0 %}{% k = sl %}{% end %}{% _, ok := m[k] %}{% if ok %}T{% end %}",
@@ -240,7 +246,8 @@ func vh_c05_e2e_faults1_q()  { vc05_e2e_faults(0, 10, false) }
 func vh_c05_e2e_faults2_q()  { vc05_e2e_faults(10, 20, false) }
 func vh_c05_e2e_faults3_q()  { vc05_e2e_faults(20, 28, false) }
 func vh_c05_e2e_faults4s_q() { vc05_e2e_faults(28, 37, true) }
-func vh_c05_e2e_faults5s_q() { vc05_e2e_faults(37, len(vc05Faults), true) }
+func vh_c05_e2e_faults5s_q() { vc05_e2e_faults(37, 42, true) }
+func vh_c05_e2e_faults6s_q() { vc05_e2e_faults(42, len(vc05Faults), true) }
 func vh_c05_e2e_faults1s_q() { vc05_e2e_faults(0, 10, true) }
 func vh_c05_e2e_faults2s_q() { vc05_e2e_faults(10, 20, true) }
 func vh_c05_e2e_faults3s_q() { vc05_e2e_faults(20, 28, true) }
